@@ -11,6 +11,7 @@ import (
 	"encoding/hex"
 	"fmt"
 	"strings"
+	"sync"
 	"testing"
 
 	"github.com/tokenized/logger"
@@ -68,6 +69,69 @@ var c20Decoders = map[string]func([]byte){
 			_, _ = repo.Hash(quietCtx(), repo.LastHeight())
 		}
 	},
+	// a header file that is not the latest one: the repository was loaded while the file was intact
+	// (Load itself refuses a short older file) and the record under that key is then replaced by the
+	// input; the by-height lookups that read the file from storage run around the height at which the
+	// input ends
+	"blocks-old": func(b []byte) {
+		repo, st := c20OldFileRepo()
+		_ = st.Write(quietCtx(), repo.buildPath(0), b, nil)
+		n := len(b) / 80
+		for _, h := range []int{n, n - 1} {
+			if h < 0 || h >= blocksPerKey {
+				continue
+			}
+			_, _ = repo.Hash(quietCtx(), h)
+			if h == n {
+				_, _ = repo.Header(quietCtx(), h)
+				_, _ = repo.Time(quietCtx(), h)
+			}
+		}
+	},
+}
+
+// c20KindConst is the input-independent part of the allocation budget per record kind: reading a
+// header file always reserves room for a full file of 1000 headers (80 000 bytes) whatever the input
+// holds, which is a constant, not an allocation driven by what the bytes claim.
+var c20KindConst = map[string]uint64{"blocks": 1 << 20, "blocks-old": 1 << 20}
+
+func c20Bound(kind string, n int) uint64 { return verifkit.AllocBound(n) + c20KindConst[kind] }
+
+var (
+	c20OldOnce  sync.Once
+	c20OldRepo  *BlockRepository
+	c20OldStore *verifkit.MemStore
+	c20OldFull  []byte
+)
+
+// c20FullHeaderFile returns a full 1000-header file (deterministic contents).
+func c20FullHeaderFile() []byte {
+	var buf bytes.Buffer
+	for i := 0; i < blocksPerKey; i++ {
+		h := wire.BlockHeader{Version: 1, Timestamp: uint32(1600000000 + i), Bits: 0x1d00ffff, Nonce: uint32(i)}
+		h.PrevBlock[0], h.PrevBlock[1] = byte(i), byte(i>>8)
+		_ = h.Serialize(&buf)
+	}
+	return buf.Bytes()
+}
+
+func c20OldFileRepo() (*BlockRepository, *verifkit.MemStore) {
+	c20OldOnce.Do(func() {
+		c20OldStore = verifkit.NewMemStore(true)
+		c20OldRepo = NewBlockRepository(config.Config{Net: bitcoin.MainNet}, c20OldStore)
+		c20OldFull = c20FullHeaderFile()
+		_ = c20OldStore.Write(quietCtx(), c20OldRepo.buildPath(0), c20OldFull, nil)
+		var buf bytes.Buffer
+		for i := 0; i < 3; i++ {
+			h := wire.BlockHeader{Version: 1, Timestamp: uint32(1600001000 + i), Bits: 0x1d00ffff, Nonce: uint32(1000 + i)}
+			_ = h.Serialize(&buf)
+		}
+		_ = c20OldStore.Write(quietCtx(), c20OldRepo.buildPath(blocksPerKey), buf.Bytes(), nil)
+		if err := c20OldRepo.Load(quietCtx()); err != nil {
+			panic("harness: loading the two-file chain failed: " + err.Error())
+		}
+	})
+	return c20OldRepo, c20OldStore
 }
 
 var c20Worker = verifkit.NewWorker("^TestC20Worker$")
@@ -77,6 +141,7 @@ func TestC20Worker(t *testing.T) {
 	if !verifkit.IsWorker() {
 		t.Skip("worker entry point")
 	}
+	c20OldFileRepo() // built before serving so that its one-time cost is not attributed to an input
 	verifkit.ServeWorker(c20Decoders, 3<<30)
 }
 
@@ -115,12 +180,12 @@ func c20Judge(kind string, b []byte, note string, rep *verifkit.Report) (*c20Vio
 	if o.Panicked {
 		return flag("C20/panic/"+verifkit.SiteKey(o.PanicSite), fmt.Sprintf("parsing a %d-byte %s record (%s) panicked: %s", len(b), kind, note, o.PanicMsg))
 	}
-	if o.Alloc > verifkit.AllocBound(len(b)) {
+	if o.Alloc > c20Bound(kind, len(b)) {
 		_, site, died, _, dsite, _ := c20Worker.Do("T", kind, b)
 		if died {
 			site = dsite
 		}
-		return flag("C20/alloc/"+verifkit.SiteKey(site), fmt.Sprintf("parsing a %d-byte %s record (%s) allocated %d bytes (budget %d) at %s", len(b), kind, note, o.Alloc, verifkit.AllocBound(len(b)), site))
+		return flag("C20/alloc/"+verifkit.SiteKey(site), fmt.Sprintf("parsing a %d-byte %s record (%s) allocated %d bytes (budget %d) at %s", len(b), kind, note, o.Alloc, c20Bound(kind, len(b)), site))
 	}
 	return nil, false
 }
@@ -139,7 +204,7 @@ func genHeader(t *rapid.T, label string) wire.BlockHeader {
 // genRecord draws a kind and a valid record of that kind, produced by the repository's own writer.
 func genRecord(t *rapid.T) (string, []byte) {
 	ctx := quietCtx()
-	kind := rapid.SampledFrom([]string{"peers", "reorg", "unconf", "blocktx", "txstate"}).Draw(t, "kind")
+	kind := rapid.SampledFrom([]string{"peers", "reorg", "unconf", "blocktx", "txstate", "blocks", "blocks-old"}).Draw(t, "kind")
 	st := verifkit.NewMemStore(true)
 	switch kind {
 	case "peers":
@@ -184,6 +249,10 @@ func genRecord(t *rapid.T) (string, []byte) {
 		var buf bytes.Buffer
 		_ = tx.Serialize(&buf)
 		return kind, buf.Bytes()
+	case "blocks-old":
+		// a full older file cut after a drawn number of whole headers
+		full := c20FullHeaderFile()
+		return kind, full[:80*rapid.IntRange(0, blocksPerKey).Draw(t, "headers")]
 	default:
 		var buf bytes.Buffer
 		for i, n := 0, rapid.IntRange(1, 6).Draw(t, "n"); i < n; i++ {
@@ -211,7 +280,7 @@ func splice4(b []byte, i int, repl []byte) []byte {
 	return out
 }
 
-const c20StorageRule = "valid stored records written by the repositories' own writers (peers file, reorg record, unconfirmed set, per-block txid file, tx state, header file) mutated at every offset with hostile fixed-width counts (65535 first; -1, 2^31-1, -2^31, 2^20, -2 where the first pass stayed within budget), hostile varints for the tx-state record, truncations and odd lengths; oracle: no panic, allocation <= 16KiB + 32*len; non-trivial = mutated record; distinct by input hash"
+const c20StorageRule = "valid stored records written by the repositories' own writers (peers file, reorg record, unconfirmed set, per-block txid file, tx state, header file - as the latest file at load and as an older file read by the by-height lookups after it was cut at a drawn header boundary or next to it) mutated at every offset with hostile fixed-width counts (65535 first; -1, 2^31-1, -2^31, 2^20, -2 where the first pass stayed within budget), hostile varints for the tx-state record, truncations and odd lengths; oracle: no panic, allocation <= 16KiB + 32*len (+1MiB constant for header files, whose reader always reserves a full file); non-trivial = mutated record; distinct by input hash"
 
 func TestC20Storage(t *testing.T) {
 	rep := verifkit.NewReport("C20", "TestC20Storage", c20StorageRule)
@@ -251,7 +320,7 @@ func TestC20Storage(t *testing.T) {
 	rapid.Check(t, func(rt *rapid.T) {
 		kind, valid := genRecord(rt)
 		o, _, died, _, _, _ := c20Worker.Do("D", kind, valid)
-		if died || o.Panicked || o.Alloc > verifkit.AllocBound(len(valid))/2 {
+		if died || o.Panicked || o.Alloc > c20Bound(kind, len(valid))/2 {
 			rep.Label("calibration-failed:"+kind, 1)
 			rep.Notes["calibration-"+kind] = fmt.Sprintf("valid %d-byte %s: alloc %d panic=%v died=%v", len(valid), kind, o.Alloc, o.Panicked, died)
 			return
@@ -267,6 +336,17 @@ func TestC20Storage(t *testing.T) {
 		step := 1
 		if len(valid) > 500 {
 			step = 1 + len(valid)/250
+		}
+		if kind == "blocks-old" {
+			// fixed-width records without counts: what varies is where the stored bytes end
+			try(valid, fmt.Sprintf("older header file cut to %d whole headers", len(valid)/80), "truncation")
+			for _, d := range []int{-81, -80, -79, -1, 1, 40, 79, 80} {
+				if k := len(valid) + d; k >= 0 && k <= 80*blocksPerKey {
+					try(c20FullHeaderFile()[:k], fmt.Sprintf("older header file cut to %d bytes", k), "truncation")
+				}
+			}
+			try(rapid.SliceOfN(rapid.Byte(), 0, 400).Draw(rt, "random"), "random bytes", "random")
+			return
 		}
 		for i := 0; i < len(valid); i += 1 {
 			if i > 150 && i%step != 0 {
